@@ -24,6 +24,19 @@ func releaseAllocatedIPs(ippool *IPPool, session *PFCPSession) error {
 	return nil
 }
 
+// Release the TEIDs that the UPF chose for the PDRs of a session.
+func releaseAllocatedFTEIDs(generator *FTEIDGenerator, pdrs []pdr) {
+	if generator == nil {
+		return
+	}
+
+	for _, pdr := range pdrs {
+		if pdr.UPAllocateFteid {
+			generator.FreeID(pdr.tunnelTEID)
+		}
+	}
+}
+
 func addPdrInfo(msg *message.SessionEstablishmentResponse, pdrs []pdr) {
 	logger.PfcpLog.Infoln("add PDRs with UPF alloc IPs to Establishment response")
 	logger.PfcpLog.Infoln("PDRs:", pdrs)
